@@ -18,7 +18,8 @@ import (
 )
 
 func main() {
-	mode := flag.String("mode", "stress", "stress|chan")
+	mode := flag.String("mode", "stress", "stress|chan|multi")
+	consumers := flag.Int("consumers", 2, "multi: number of consumer goroutines")
 	seed := flag.Uint64("seed", 1, "seed")
 	chunks := flag.Int("chunks", 20000, "chunks to produce")
 	procs := flag.Int("procs", 0, "GOMAXPROCS")
@@ -33,6 +34,15 @@ func main() {
 		b, _ := json.Marshal(out)
 		fmt.Println(string(b))
 		if len(out.Violations) > 0 {
+			os.Exit(1)
+		}
+		return
+	}
+	if *mode == "multi" {
+		rep := c20stress.RunMulti(c20stress.MultiConfig{Seed: *seed, Chunks: *chunks, Consumers: *consumers, Procs: *procs, Timeout: *timeout})
+		b, _ := json.Marshal(rep)
+		fmt.Println(string(b))
+		if rep.Violation != "" {
 			os.Exit(1)
 		}
 		return
